@@ -231,6 +231,7 @@ pub fn check_noisy_read(
     plan: &RPlan,
     doc: &[u8],
     order_insensitive: bool,
+    identity_required: bool,
 ) -> Verdict {
     let (hard, calls) = h.with(|s| (s.hard_fired, s.calls));
     h.absorb(ctx, plan.fail_at.is_some());
@@ -268,7 +269,9 @@ pub fn check_noisy_read(
                     ctx.probe("fault_identity_visible_only_in_debug");
                 }
                 ensure!(
-                    chain_has_fault(e.as_ref(), plan.fault_id) || debug_shows_fault(e.as_ref(), plan.fault_id),
+                    !identity_required
+                        || chain_has_fault(e.as_ref(), plan.fault_id)
+                        || debug_shows_fault(e.as_ref(), plan.fault_id),
                     format!("read_error_identity/{fam}"),
                     "{fname}: SourceError does not carry the injected fault #{}: {e:?}",
                     plan.fault_id
@@ -440,7 +443,7 @@ pub fn run_roundtrip(ctx: &mut Ctx, spec: &RtSpec<'_>) -> Verdict {
         let rd = SimReader::new(doc.clone(), rplan.clone());
         let h = rd.handle();
         let p1 = do_parse(fmt, hs, rd);
-        check_noisy_read(ctx, &fam, &fname, &p0, &p1, &h, &rplan, &doc, fmt.hash_sensitive())?;
+        check_noisy_read(ctx, &fam, &fname, &p0, &p1, &h, &rplan, &doc, fmt.hash_sensitive(), true)?;
     }
     Ok(())
 }
